@@ -31,6 +31,71 @@ def _extract(wd):
     return info
 
 
+def extra(tier, workroot):
+    """Monotonicity lemma: exhaustive native evaluation of the extracted touchNote text (enumeration, labelled so)."""
+    import os, subprocess, tempfile, time
+    from vlib.pipeline import VERIF, REPO, ExtractionError
+    wd = tempfile.mkdtemp(prefix="c11enum_", dir=workroot)
+    name = "monotonicity_exhaustive_native_enumeration"
+    try:
+        info = _extract(wd)
+    except ExtractionError as e:
+        return [dict(name=name, status="tool", detail="extraction broke: %s" % e)]
+    exe = os.path.join(wd, "enum")
+    cc = ["gcc", "-O2", "-o", exe, os.path.join(VERIF, "harness/c11_enum.c"), "-I" + wd, "-I" + os.path.join(VERIF, "harness"),
+          "-I" + os.path.join(REPO, "include"), "-lm"]
+    r = subprocess.run(cc, capture_output=True, text=True)
+    if r.returncode != 0:
+        return [dict(name=name, status="tool", detail="native compile failed: " + r.stderr[-800:])]
+    t0 = time.time()
+    try:
+        r = subprocess.run([exe, "1"], capture_output=True, text=True, timeout=1500)
+    except subprocess.TimeoutExpired:
+        return [dict(name=name, status="tool", detail="enumeration timeout")]
+    out = r.stdout.strip().splitlines()[-1] if r.stdout.strip() else ""
+    if r.returncode == 0 and out.startswith("ENUM ok"):
+        n = int(out.split("evaluations=")[1].split()[0])
+        return [dict(name=name, status="ok", obligations=1, discharged=1, evaluations=n, exhaustive=True, wall_s=round(time.time() - t0, 1),
+                     detail=out + " - every (velocity, volume, expression, master volume) in 0..127^4 x 5 volume models; every level x operator byte x algorithm x modulator scaling; every brightness",
+                     method="exhaustive native execution of the extracted real function body (not deduction)")]
+    if "ENUM VIOLATION" in out:
+        os.makedirs(os.path.join(VERIF, "replays", "C11"), exist_ok=True)
+        path = os.path.join(VERIF, "replays", "C11", "monotonicity_enumeration.json")
+        import json
+        json.dump(dict(property="C11", obligation=name, failing_input=out, native_replay=dict(reproduced=True, how="the enumeration executes the extracted real body natively")), open(path, "w"), indent=1)
+        return [dict(name=name, status="violated", detail=out, replay=path, reproduced=True)]
+    return [dict(name=name, status="tool", detail="unexpected output rc=%s %s %s" % (r.returncode, out, r.stderr[-300:]))]
+
+
+def replay(g, obligation, wit, workroot):
+    """Level-1 replay: the extracted real touchNote text is executed natively on the counterexample's values."""
+    import os, subprocess, tempfile
+    from vlib.pipeline import VERIF, REPO
+    def num(k, d=0):
+        v = wit.get(k)
+        if v is None:
+            return d
+        v = str(v)
+        if "VOLUME_" in v:
+            return ["VOLUME_Generic", "VOLUME_NATIVE", "VOLUME_DMX", "VOLUME_APOGEE", "VOLUME_9X"].index(v.split("/")[-1].strip())
+        if v in ("TRUE", "FALSE"):
+            return 1 if v == "TRUE" else 0
+        return int(v.rstrip("ul"))
+    args = [num("in_c"), num("in_v"), num("in_cv"), num("in_ce"), num("in_br", 127), num("in_mv", 127), num("in_model"), num("in_scale"),
+            max(1, num("in_nchips", 1)), num("in_alg") & 7] + [num("in_op_level[%dl]" % k) for k in range(4)]
+    wd = tempfile.mkdtemp(prefix="c11replay_", dir=workroot)
+    _extract(wd)
+    exe = os.path.join(wd, "replay")
+    r = subprocess.run(["gcc", "-O1", "-fsanitize=address,undefined", "-o", exe, os.path.join(VERIF, "harness/c11_replay.c"), "-I" + wd,
+                        "-I" + os.path.join(VERIF, "harness"), "-I" + os.path.join(VERIF, "contracts"), "-I" + os.path.join(REPO, "include"), "-lm"],
+                       capture_output=True, text=True)
+    if r.returncode != 0:
+        return dict(reproduced=False, error="replay compile failed: " + r.stderr[-500:])
+    r = subprocess.run([exe] + [str(a) for a in args], capture_output=True, text=True, timeout=30)
+    return dict(reproduced=(r.returncode == 1 and "REPLAY-VIOLATION" in r.stdout), level="extracted-text replay (native, ASan/UBSan)",
+                args=args, output=r.stdout[-600:], stderr=r.stderr[-300:])
+
+
 def groups(tier):
     return [Group("touchNote_contract", "harness/opn2_h.c", "h_touchNote", enforce="touchNote", replace=["log", "sqrt"],
                   extract=_extract, required=[r"postcondition", r"assigns", r"TAP chip index"], timeout=600,
